@@ -232,6 +232,12 @@ class FuncTaint:
                     or (isinstance(seq, ast.Name) and self.seq_types.get(seq.id) in ('array', 'string'))
                 if is_seq:
                     out.append((n, 'sequence repetition count', e))
+        elif isinstance(e, ast.BinOp) and isinstance(e.op, (ast.LShift, ast.RShift, ast.BitAnd, ast.BitOr, ast.BitXor)):
+            sym = {ast.LShift: '<<', ast.RShift: '>>', ast.BitAnd: '&', ast.BitOr: '|', ast.BitXor: '^'}[type(e.op)]
+            out.append((e.left, f'left operand of {sym} (integers only: a float raises TypeError)', e))
+            out.append((e.right, f'right operand of {sym} (integers only: a float raises TypeError)', e))
+        elif isinstance(e, ast.UnaryOp) and isinstance(e.op, ast.Invert):
+            out.append((e.operand, 'operand of ~ (integers only)', e))
         elif isinstance(e, ast.Call):
             cn = call_name(e)
             if cn in INT_ONLY_CALLS:
